@@ -76,6 +76,7 @@ let handle line =
   | ["nonvacuous"; cs] -> "OK " ^ string_of_bool (z_nonvacuous (clist cs))
   | ["wf"; cs] -> "OK " ^ string_of_bool (z_wf_sorted (clist cs))
   | ["validate"; cs] -> res_bool (z_validate (clist cs))
+  | ["simplify"; cs] -> res_clist (z_simplify (clist cs))
   | ["sort"; cs] -> res_clist (z_sort (clist cs))
   | ["invert"; cs] -> (match z_invert (clist cs) with None -> "NONE" | Some r -> res_clist r)
   | ["normalize"; cs; known] -> res_clist (z_normalize (clist cs) (ilist known))
